@@ -3,6 +3,7 @@ package zset
 import (
 	"encoding/binary"
 	"errors"
+	"math"
 	"path/filepath"
 
 	"github.com/diiyw/nodis/ds"
@@ -386,6 +387,9 @@ func (sortedSet *SortedSet) ZIncrBy(member string, score float64) float64 {
 	element, ok := sortedSet.dict.Get(member)
 	if ok {
 		score += element.Score
+	}
+	if math.IsNaN(score) {
+		return score
 	}
 	sortedSet.zAdd(member, score)
 	return score
